@@ -468,6 +468,9 @@ def work(task):
     return (sidx, hist, nev, nobj, report.compact(fails), len(nontrivial))
 
 
+UNDERDECLARED = {"kind": "xml", "rows": [{"enc": [[1, 1], [2, 1], [3, 1], [4, 1]], "rep": 1}, {"enc": [[5, 2], [6, 1]], "rep": 2}, {"enc": [[7, 1]], "rep": 1}], "cols": [2]}
+
+
 def states_for(tm, tier):
     """(seed idx, history) list: all seeds at depth 0; successors of a seed subset by one op."""
     out = [(i, ()) for i in tm.select_seeds("xmlctor")]
@@ -501,6 +504,10 @@ def run(prop, tier, vseed):
     t0 = time.time()
     TM = tm = TableMachine()
     tasks = states_for(tm, tier)
+    # a table as another producer may write it: fewer columns declared than the rows hold cells
+    # (reads must answer from the rows; C07 is not judged on this seed)
+    tm.seed_list.append(UNDERDECLARED)
+    tasks.append((len(tm.seed_list) - 1, ()))
     nproc = int(os.environ.get("VERIF_NPROC", "0")) or min(16, os.cpu_count() or 1)
     failures = []
     nev = nobj = 0
@@ -532,6 +539,7 @@ def run(prop, tier, vseed):
 def replay(rp):
     global TM
     TM = tm = TableMachine()
+    tm.seed_list.append(UNDERDECLARED)
     from ..replay import tup
 
     hist = tuple(tup(o) for o in rp["history"])
